@@ -395,18 +395,24 @@ def file_script(rng, path, length, seed, tags, prefix=0):
     return s
 
 
-def compare_script(rng, path, tags):
-    """contents unknown: updmm and updmmr against updfile only"""
+def compare_script(rng, path, tags, pools=False):
+    """contents unknown: updmm and updmmr (and, with pools, update_mmap_rayon inside explicit pools) against updfile only"""
     mode = _mode(rng)
     s = IoScript(tags=tags)
-    for r in "abc":
+    regs = "abcde" if pools else "abc"
+    for r in regs:
         s.op(f"H new {r} {mode}", "ok")
     s.op(f"H updmm a {path}", "ok")
     s.op(f"H updmmr b {path}", "ok")
     s.op(f"H updfile c {path}", "ok")
-    cnts = [s.op(f"H cnt {r}") for r in "abc"]
-    fins = [s.op(f"H fin {r}") for r in "abc"]
-    s.equal += [(cnts[0], cnts[2]), (cnts[1], cnts[2]), (fins[0], fins[2]), (fins[1], fins[2])]
+    if pools:
+        s.op(f"H updmmrp d 1 {path}", "ok")
+        s.op(f"H updmmrp e 4 {path}", "ok")
+    cnts = [s.op(f"H cnt {r}") for r in regs]
+    fins = [s.op(f"H fin {r}") for r in regs]
+    for i in range(len(regs)):
+        if i != 2:
+            s.equal += [(cnts[i], cnts[2]), (fins[i], fins[2])]
     return s
 
 
@@ -520,6 +526,16 @@ def file_scripts(rng, tmpdir, fifo=True):
         os.unlink(link)
     os.symlink(target, link)
     out.append(file_script(rng, link, 20000, seed, ("file", "symlink")))
+    # a large sparse file (well above any plausible windowing constant, length not a multiple of 64 MiB / 1 MiB / 64 KiB):
+    # every mmap entry point against update_reader
+    big = os.path.join(tmpdir, "sparse_large.bin")
+    with open(big, "wb") as f:
+        f.truncate(64 * 1024 * 1024 + 3 * 1024 * 1024 + 4097)
+        for off in (0, 12345, 64 * 1024 * 1024 - 1, 64 * 1024 * 1024 + 5, 67 * 1024 * 1024 + 4000):
+            f.seek(off)
+            f.write(b"\x5a\xa5not zero")
+    s_big = compare_script(rng, big, ("file", "large-sparse"), pools=True)
+    out.append(s_big)
     # pseudo files whose contents are stable within one process
     for p in ["/proc/self/cmdline", "/proc/version"]:
         if os.path.exists(p):
